@@ -35,6 +35,7 @@ MISSED_FIRST = {
     "C14e_tie_with_target_recovery_order_dependent": "the SIS tables gave distinct event times by construction; tie-rich half-unit tables in 30% of the C14 fast_nonMarkov_SIS pairs (histories only; 800k runs on the unchanged tree are order-independent)",
     "C14f_sir_individual_rec_rates_in_graph_order": "ODE pairs never passed nodelist / Y0 / weights; now they do, each side with a nodelist order of its own (found genuine defect #11: pair-based adjacency mask in G.nodes() order)",
     "C09e_sis_self_loop_link_while_susceptible": "caught by C02 at once; C09 itself only after self-loops entered every SIR/SIS sweep and the oracle stopped counting the status a node enters through a self-transmission as what made it infectious",
+    "C13g_user_delay_list_popped_in_place": "the keyed tables built a fresh list per call; a quarter of the C13 cases now use a memo table that hands out the same (unfiltered, pair-keyed) list object every time",
     "X1a_surplus_rows_stripped_by_time": "C05 never had an event at tmin; a quarter of the cases now do (row 0 of the arrays only)",
     "X1b_influence_set_before_status_update": "influence sets never depended on statuses; `seir_rates` influence set depends on the node's new status",
 }
